@@ -73,6 +73,8 @@ pub struct Span {
 
 /// GraphQL lexer.
 pub struct Lexer<'a> {
+    /// The source text (kept for error reporting).
+    #[allow(dead_code)]
     source: &'a str,
     chars: Peekable<Chars<'a>>,
     position: usize,
